@@ -1,5 +1,25 @@
-(* placeholder while the proofs are being developed *)
-From Coq Require Import ZArith.
-From Stk Require Import T.Model T.Spec.
-Theorem C07_no_early : True. Proof. exact I. Qed.
+(** Property C07: no timer fires early.
+    Only property theorems live here; each is closed by [exact] of a lemma of coq/T. *)
+From Coq Require Import ZArith List Bool.
+From Stk Require Import Lib.U Gen.SrcTimers T.Model T.Spec T.Inv T.Rel T.Main T.Witness.
+Import ListNotations.
+Local Open Scope Z_scope.
+
+(** For every good history (fewer than 2^31 - 2 operations; instants and durations below 2^61 ns;
+    no verification-hook pokes, i.e. outside the classes GenWrap / SeqWrap of the known findings
+    F2 / F3; pairwise distinct callback ids; every key operation uses a key the API returned for
+    that kind of timer, or the Default key), run on the model of src/timers/mod.rs from
+    [Timers::new]: the C07 monitor of T/Spec.v is true at every operation - every callback
+    reported by a run belongs to a timer whose effective expiry (the instant given; the greatest /
+    smallest instant given to a Max / Min timer) is at or before the runtime's new current time;
+    callbacks are produced by [run] only. *)
+Theorem C07_no_early : forall ops, good ops -> v07 (mon_all (model_history ops)) = true.
+Proof. exact C07_all. Qed.
+Check C07_no_early : forall ops, good ops -> v07 (mon_all (model_history ops)) = true.
 Print Assumptions C07_no_early.
+
+(** the hypothesis is satisfiable by a non-trivial history, on which all monitors are true *)
+Example C07_good_satisfiable : good good_ops /\ band_free good_ops.
+Proof. exact good_ops_good. Qed.
+Example C07_good_verdict : v_all (mon_all (model_history good_ops)) = true.
+Proof. exact good_ops_verdict. Qed.
